@@ -9,24 +9,36 @@ package quic
 import (
 	"fmt"
 	"math/rand/v2"
+	"sync"
 	"testing"
 
 	"github.com/refraction-networking/uquic/internal/verif/evlog"
 )
 
-// c09Rep deduplicates violations per case and signature (a failing configuration fails for
-// most of its 2000 draws).
+// c09Rep deduplicates violations per process and signature: a failing configuration fails for
+// most of its 2000 draws, and the case log keeps only the first 200 violation records, so a flood
+// under one signature must not crowd out another signature.  At most 2 records per signature and
+// case and 6 per signature and process are written; every occurrence is counted.
 type c09Rep struct {
 	c    *evlog.Case
 	seen map[string]int
 }
+
+var (
+	c09SeenMu  sync.Mutex
+	c09SeenAll = map[string]int{}
+)
 
 func newC09Rep(c *evlog.Case) *c09Rep { return &c09Rep{c: c, seen: map[string]int{}} }
 
 func (r *c09Rep) viol(sig, detail string, trace any) {
 	r.seen[sig]++
 	r.c.Count("violations_raw", 1)
-	if r.seen[sig] > 2 {
+	c09SeenMu.Lock()
+	c09SeenAll[sig]++
+	n := c09SeenAll[sig]
+	c09SeenMu.Unlock()
+	if r.seen[sig] > 2 || n > 6 {
 		return
 	}
 	r.c.Violation(sig, detail, trace)
@@ -222,7 +234,7 @@ func TestVerifC09Frames(t *testing.T) {
 	}
 
 	// ---- random tilings of longer slices
-	nBatch := l.Pick(120, 3000)
+	nBatch := l.Pick(300, 6000)
 	const per = 60
 	for bi := 0; bi < nBatch; bi++ {
 		if !l.Mine(idx) {
@@ -381,7 +393,7 @@ func TestVerifC09Random(t *testing.T) {
 	idx := 0
 
 	// ---- QUICRandomFrames: one configuration per case, many draws
-	nCfg := l.Pick(300, 5000)
+	nCfg := l.Pick(900, 12000)
 	draws := 2000
 	for ci := 0; ci < nCfg; ci++ {
 		if !l.Mine(idx) {
@@ -454,7 +466,7 @@ func TestVerifC09Random(t *testing.T) {
 	// ---- QUICMultiDatagramFrames: a ClientHello cut into consecutive slices the way the packer
 	// hands them out; every slice re-framed by the spec for its index; the union must be the
 	// whole ClientHello.
-	nMulti := l.Pick(150, 3000)
+	nMulti := l.Pick(400, 6000)
 	for ci := 0; ci < nMulti; ci++ {
 		if !l.Mine(idx) {
 			idx++
@@ -810,7 +822,7 @@ func TestVerifC09Flight(t *testing.T) {
 	l := evlog.Open("C09")
 	defer l.Close()
 	idx := 0
-	nBatch := l.Pick(160, 4000)
+	nBatch := l.Pick(320, 6000)
 	const per = 25
 	for bi := 0; bi < nBatch; bi++ {
 		if !l.Mine(idx) {
@@ -863,6 +875,51 @@ func TestVerifC09Flight(t *testing.T) {
 			c09Call(rp, "randomflight", "|build-fallback", data, 0, false, func() map[string]any {
 				return map[string]any{"builder": c09FlightDesc(rf), "via": "Build"}
 			}, func() ([]byte, error) { return rf.Build(data) })
+		}
+		c.End()
+	}
+
+	// ---- QUICRandomFlightFrames: covering plans with valid framing parameters, thousands of
+	// draws per configuration
+	nDeep := l.Pick(40, 800)
+	for di := 0; di < nDeep; di++ {
+		if !l.Mine(idx) {
+			idx++
+			continue
+		}
+		idx++
+		id := fmt.Sprintf("C09/flight/deep/%05d", di)
+		rng := l.Rand(id)
+		n := []int{1, 2, 5, 9, 66, 256, 1162, 1734, 2300, 3400, 4800, 16385}[di%12]
+		var p c09FlightPlan
+		for {
+			if p = c09GenFlight(rng, n); p.ModelCov {
+				break
+			}
+		}
+		rf := p.asRandomFlight(rng)
+		for i := range rf.PerDatagram {
+			q := &rf.PerDatagram[i].Frames
+			q.MinPING, q.MaxPING = min(q.MinPING, q.MaxPING), max(q.MinPING, q.MaxPING)
+			q.MinCRYPTO, q.MaxCRYPTO = min(q.MinCRYPTO, q.MaxCRYPTO), max(q.MinCRYPTO, q.MaxCRYPTO)
+			q.MinPADDING, q.MaxPADDING = max(min(q.MinPADDING, q.MaxPADDING), 1), max(q.MinPADDING, q.MaxPADDING, 1)
+			if len(rf.PerDatagram[i].CryptoRanges) == 0 {
+				rf.PerDatagram[i].CryptoRanges = []QUICCryptoRange{{Offset: -min(n, 1+rng.IntN(3))}}
+			}
+		}
+		d := 2000
+		if n > 5000 {
+			d = 200
+		}
+		c := l.Begin(id, map[string]any{"builder": c09FlightDesc(rf), "len": n, "draws": d})
+		if c == nil {
+			continue
+		}
+		rp := newC09Rep(c)
+		data := c09Bytes(rng, n)
+		for j := 0; j < d; j++ {
+			c.Eval("rff-deep " + c09EvalBuildFlight(c, rp, "randomflight", rf, p, data, j))
+			c.Count("random_flight_draws", 1)
 		}
 		c.End()
 	}
